@@ -74,7 +74,7 @@ def source_of(world, event):
 def run_shard(spec, acc):
     runner.quiet()
     cs = combos(spec['seed'])[spec['shard']::spec['nshards']]
-    count = 2 if spec['tier'] == 'quick' else 10
+    count = 2 if spec['tier'] == 'quick' else 20
     for (sc, layout, qm) in cs[:count]:
         world = None
         try:
@@ -96,7 +96,7 @@ def run_shard(spec, acc):
                for q in ('queue', 'noqueue', 'skipqueue')]
     prof = gen.profile(p_green=0.85, p_forward=0.6,
                        w={'admin': 2, 'amend': 2, 'rebase': 2, 'decline': 1})
-    n_hist, jobs = (4, 12) if spec['tier'] == 'quick' else (30, 20)
+    n_hist, jobs = (4, 12) if spec['tier'] == 'quick' else (60, 20)
     runner.run_histories(spec, acc, configs, prof, MONITORS, n_hist, jobs,
                          openers=[None, gen.OPENERS['two_prs_same_base']],
                          soft_cap_s=500 if spec['tier'] == 'quick' else 4000)
